@@ -53,16 +53,23 @@ def main():
     print("confirmed:", confirmed, json.dumps(ran)[:900])
     results = {}
     if confirmed:
-        assert sh("git -C /repo status --porcelain --untracked-files=no").stdout.strip() == "", "/repo dirty"
-        r = sh("git -C /repo apply %s" % patch)
-        assert r.returncode == 0, r.stderr
+        # the checks run against a scratch copy of /repo's sources with the patch applied (VERIF_REPO), so that /repo itself
+        # is never modified while other runs (sweeps, vp run) are building from it
+        scr = tempfile.mkdtemp(prefix="seedsrc-", dir="/var/tmp")
         try:
+            shutil.copytree("/repo/src", os.path.join(scr, "src"))
+            r = sh("cd %s && patch -s -p1 < %s" % (scr, patch))
+            assert r.returncode == 0, r.stdout + r.stderr
             for c in checks:
-                cmd = "%s/check %s --tier quick --no-evidence %s" % (V, c, ("--seed " + seed[0]) if seed else "")
+                cmd = "VERIF_REPO=%s %s/check %s --tier quick --no-evidence %s" % (scr, V, c, ("--seed " + seed[0]) if seed else "")
                 try:
-                    r = subprocess.run(cmd, shell=True, capture_output=True, text=True, timeout=1500)
+                    pr = subprocess.Popen(cmd, shell=True, stdout=subprocess.PIPE, stderr=subprocess.PIPE, text=True,
+                                          start_new_session=True)
+                    so, se = pr.communicate(timeout=1500)
+                    r = subprocess.CompletedProcess(cmd, pr.returncode, so, se)
                 except subprocess.TimeoutExpired:
-                    sh("pkill -9 -f vlib.worker")
+                    import signal
+                    os.killpg(pr.pid, signal.SIGKILL)
                     results[c] = dict(rc=None, verdict="TIMEOUT", first="check did not finish within 1500 s")
                     print(c, "TIMEOUT")
                     continue
@@ -71,7 +78,7 @@ def main():
                                   first=(viol[0][:300] if viol else r.stdout[-300:]))
                 print(c, results[c]["verdict"], results[c]["first"][:250])
         finally:
-            sh("git -C /repo checkout -- .")
+            shutil.rmtree(scr, ignore_errors=True)
             import glob
             for c in checks:
                 for f in glob.glob(os.path.join(V, "replays", c, "viol-*.json")):
